@@ -25,6 +25,11 @@ def run(ctx: Ctx, chk) -> None:
     chk.run_rule(sleep1, ctx)
     chk.run_rule(asleep_during_flush, ctx)
     chk.run_rule(sent_is_forgotten, ctx)
+    from . import c12
+
+    chk.run_rule(c12.send_dispatches, ctx)
+    chk.run_rule(sb.buffer_once, ctx)
+    chk.run_rule(sb.buffer_plain, ctx)
 
 
 def sent_is_forgotten(ctx: Ctx, chk) -> None:
